@@ -53,6 +53,7 @@ def main(argv):
             if a.only and e2["name"] not in a.only:
                 continue
             import e2run
+            e2 = dict(e2, prop=prop)
             r = e2run.run(scr, e2, seed, a.tier)
             e2_results.append(r)
             verdicts.append(("e2", e2, r["verdict"], r.get("detail", ""), r))
@@ -74,13 +75,41 @@ def conclude(prop, tier, seed, verdicts, scr):
     import replay
     for kind, src, v, d, r in verdicts:
         name = src.name if kind == "kani" else src["name"]
+        if kind == "e2":
+            # lemma-granular: every failing lemma is either a listed finding or a violation
+            for l in r.get("lemmas", []):
+                if l.get("witness") or l["ok"]:
+                    continue
+                key = l.get("key") or l["name"]
+                if (prop, key) in open_f:
+                    lines.append("KNOWN-FINDING: property=%s %s [%s]" % (prop, open_f[(prop, key)], key))
+                    continue
+                if v == "inconclusive":
+                    continue
+                path, confirmed = replay.record(prop, name, kind, dict(r, lemma=l["name"], counterexample=l.get("counterexample"),
+                                                                      bad_key=key), l["name"], scr)
+                if confirmed:
+                    lines.append("VIOLATION property=%s replay=%s" % (prop, path))
+                    nviol += 1
+                    rc = 1
+                else:
+                    lines.append("INCONCLUSIVE property=%s lemma=%r counterexample did not replay (%s)" % (prop, l["name"], path))
+                    rc = max(rc, 2) if rc != 1 else 1
+            if v == "inconclusive":
+                lines.append("INCONCLUSIVE property=%s harness=%s %s" % (prop, name, d))
+                rc = max(rc, 2) if rc != 1 else 1
+            # listed findings that no longer fail are reported, not alarmed about
+            for l in r.get("lemmas", []):
+                if l["ok"] and l.get("key") and (prop, l["key"]) in open_f:
+                    lines.append("NOTE property=%s finding %s no longer reproduces (stale entry in known_findings.txt)" % (prop, l["key"]))
+            continue
         if v == "ok":
             continue
         if v == "inconclusive":
             lines.append("INCONCLUSIVE property=%s harness=%s %s" % (prop, name, d))
-            rc = max(rc, 2)
+            rc = max(rc, 2) if rc != 1 else 1
         elif v == "finding":
-            key = src.finding if kind == "kani" else src.get("finding")
+            key = src.finding
             if key and (prop, key) in open_f:
                 lines.append("KNOWN-FINDING: property=%s %s [%s]" % (prop, open_f[(prop, key)], key))
             else:
@@ -88,16 +117,14 @@ def conclude(prop, tier, seed, verdicts, scr):
                 if confirmed:
                     lines.append("VIOLATION property=%s replay=%s" % (prop, path))
                     nviol += 1
-                    rc = 1 if rc != 1 else rc
+                    rc = 1
                 else:
                     lines.append("INCONCLUSIVE property=%s harness=%s counterexample did not replay (%s)" % (prop, name, path))
                     rc = max(rc, 2) if rc != 1 else 1
         elif v == "stale-finding":
-            key = src.finding if kind == "kani" else src.get("finding")
+            key = src.finding
             if key and (prop, key) in open_f:
-                lines.append("INCONCLUSIVE property=%s harness=%s recorded finding %s no longer reproduces: entry is stale" % (prop, name, key))
-                rc = max(rc, 2) if rc != 1 else 1
-            # fixed or unlisted: the defect is absent, which is what we want
+                lines.append("NOTE property=%s finding %s no longer reproduces (stale entry in known_findings.txt)" % (prop, key))
         elif v == "violation":
             path, confirmed = replay.record(prop, name, kind, r, d, scr)
             if confirmed:
